@@ -282,11 +282,64 @@ func (w *world) runOp(t *task, i int) {
 			}
 		}
 	}
+	if op.Op == "File" && w.paths[t.id][i] != "" {
+		if v := verifyFile(w.paths[t.id][i], w.docs[op.Doc], op.FS); v != "" {
+			oo.Snap = append(oo.Snap, "file: "+v)
+		}
+	}
 	if ns := w.net[t.id][i]; ns != nil && ns.body != nil {
 		c := ns.body.closed
 		oo.BodyClosed = &c
 	}
 	w.walWrite(w.wal[t.id][i][1])
+}
+
+// verifyFile checks that ApplyForFile left the caller's file as it found it.
+func verifyFile(path string, data []byte, fp *plan.FSPlan) string {
+	kind, at := "ok", 0
+	if fp != nil {
+		kind, at = fp.Kind, fp.At
+	}
+	st, err := os.Stat(path)
+	switch kind {
+	case "missing":
+		if err == nil {
+			return "a file appeared at a path that did not exist"
+		}
+		return ""
+	case "dir":
+		if err != nil || !st.IsDir() {
+			return "the directory at the given path was replaced or removed"
+		}
+		return ""
+	}
+	if err != nil {
+		return "the file was removed: " + err.Error()
+	}
+	want := data
+	switch kind {
+	case "empty":
+		want = nil
+	case "trunc":
+		if at > len(data) {
+			at = len(data)
+		}
+		if at < 0 {
+			at = 0
+		}
+		want = data[:at]
+	}
+	got, err := os.ReadFile(path)
+	if err != nil {
+		return "the file became unreadable: " + err.Error()
+	}
+	if !bytes.Equal(got, want) {
+		return fmt.Sprintf("file content changed (%d -> %d bytes)", len(want), len(got))
+	}
+	if st.Mode().Perm() != 0o644 {
+		return "file mode changed to " + st.Mode().String()
+	}
+	return ""
 }
 
 func (w *world) panicSite(stack string) string {
